@@ -372,6 +372,11 @@ def run_case(ctx, idx, rng, tier):
             d = timeline_diff(base, sn, tol=1e-6, by_id=True, eom_off=False)
             if timing_changed:
                 ctx.mark_nontrivial(("c18", idx))
+            if d and all("phase reference" in x for x in d):
+                # timeline and samples - what the statement promises - are identical; only the phase references kept for
+                # pulses still to come differ (e.g. a drift correction at another off-detuning with no pulse after it)
+                ctx.gray("strict:only-phase-references-of-future-pulses-differ")
+                d = []
             if d:
                 slm = base["flags"]["slm_dmm"]
                 only_slm = slm is not None and all(x.startswith(f"{slm}[") and "pulse samples differ" in x for x in d)
